@@ -4,6 +4,9 @@
 //!   vtree ::= L <var> | N <vtree> <vtree>            cap = initial unique-table slots (0 = shipped)
 //!   ops   ::= t | f | v <var> <pol> | n <i> | a <i> <j> | o <i> <j> | x <i> <j> | q <i> <j>
 //!           | i <i> <j> <k> | c <i> <var> <0|1> | e <i> <var> | m <i> <var> <j>      (i,j,k: pool indices)
+//!           | k <n> (<len> <lit>*)^n      compile_cnf of Cnf::new(raw clauses); lit = 2*var + polarity
+//!        with compression off AND a compile_cnf in the program only truth tables are printed (the clause
+//!        order after the code's sort with a non-total comparator is not determined by the property)
 //! out:   unfolding of every pool entry (re-walked after the last operation), '#', then for every
 //!        entry the index of the first pointer-equal entry.
 //! oracle: truth table (128 rows, variables 0..6) of every entry, computed by walking the nodes
@@ -13,7 +16,8 @@
 //!        the library's own predicates, and pointer equality <=> truth-table equality).
 use rsdd::builder::sdd::{CompressionSddBuilder, SddBuilder};
 use rsdd::builder::BottomUpBuilder;
-use rsdd::repr::{DDNNFPtr, SddPtr, VTree, VarLabel};
+use rsdd::repr::{Cnf, DDNNFPtr, DTree, Literal, SddPtr, VTree, VarLabel};
+use rsdd::util::btree::BTree;
 use rsdd_verif_harness::*;
 use std::collections::HashMap;
 
@@ -124,6 +128,69 @@ fn vt_rsdd(t: &VT) -> VTree {
         VT::N(l, r) => VTree::new_node(Box::new(vt_rsdd(l)), Box::new(vt_rsdd(r))),
     }
 }
+fn vt_of_rsdd(t: &VTree) -> VT {
+    match t {
+        BTree::Leaf(v) => VT::L(v.value()),
+        BTree::Node((), l, r) => VT::N(Box::new(vt_of_rsdd(l)), Box::new(vt_of_rsdd(r))),
+    }
+}
+/// random CNF over the labels: 0..5 clauses of 0..4 literals; edge stream: empty formula, empty
+/// clause, unit clauses, repeated and complementary literals
+fn gen_cnf(rng: &mut Rng, labels: &[u64], maxcl: usize) -> Vec<Vec<(u64, bool)>> {
+    let n = if rng.chance(1, 12) { 0 } else { rng.range(1, maxcl) };
+    let mut f = vec![];
+    for _ in 0..n {
+        let len = if rng.chance(1, 15) { 0 } else if rng.chance(1, 5) { 1 } else { rng.range(1, 4) };
+        let mut c: Vec<(u64, bool)> = vec![];
+        for _ in 0..len {
+            if !c.is_empty() && rng.chance(1, 8) {
+                let (v, b) = *rng.pick(&c);
+                c.push((v, if rng.coin() { b } else { !b })); // repeated / complementary literal
+            } else {
+                c.push((*rng.pick(labels), rng.coin()));
+            }
+        }
+        f.push(c);
+    }
+    f
+}
+fn cnf_text(f: &[Vec<(u64, bool)>]) -> String {
+    let mut s = format!(" k {}", f.len());
+    for c in f {
+        s.push_str(&format!(" {}", c.len()));
+        for (v, b) in c {
+            s.push_str(&format!(" {}", 2 * v + *b as u64));
+        }
+    }
+    s
+}
+fn cnf_rsdd(f: &[Vec<(u64, bool)>]) -> Cnf {
+    let cl: Vec<Vec<Literal>> = f.iter().map(|c| c.iter().map(|(v, b)| Literal::new(VarLabel::new(*v), *b)).collect()).collect();
+    Cnf::new(&cl)
+}
+/// the vtree the library derives from the CNF (min-fill dtree), if it is usable for this case:
+/// distinct leaves that cover the labels
+fn vt_from_dtree(f: &[Vec<(u64, bool)>], labels: &[u64]) -> Option<VT> {
+    if f.is_empty() || f.iter().any(|c| c.is_empty()) {
+        return None;
+    }
+    let f2 = f.to_vec();
+    let r = std::panic::catch_unwind(move || {
+        let cnf = cnf_rsdd(&f2);
+        let dt = DTree::from_cnf(&cnf, &cnf.min_fill_order());
+        VTree::from_dtree(&dt).map(|v| vt_of_rsdd(&v))
+    });
+    let vt = r.ok()??;
+    let mut lv = vec![];
+    vt_leaves(&vt, &mut lv);
+    let mut sorted = lv.clone();
+    sorted.sort();
+    sorted.dedup();
+    if sorted.len() != lv.len() || labels.iter().any(|l| !lv.contains(l)) || lv.iter().any(|l| *l as usize >= NV) {
+        return None;
+    }
+    Some(vt)
+}
 fn vt_leaves(t: &VT, out: &mut Vec<u64>) {
     match t {
         VT::L(v) => out.push(*v),
@@ -185,22 +252,55 @@ pub fn gen(rng: &mut Rng, idx: usize, n: usize, thorough: bool) -> String {
         rng.shuffle(&mut labels[..nleaves.max(1)]);
     }
     labels.truncate(nleaves);
-    let vt = match rng.below(6) {
+    let mut vt = match rng.below(6) {
         0 => vt_right(&labels),
         1 => vt_left(&labels),
         2 => vt_balanced(&labels),
         _ => vt_random(rng, &labels),
     };
+    // a third of the cases compile CNFs; half of those under the vtree the library derives from
+    // the first CNF (VTree::from_dtree(DTree::from_cnf(.., min_fill_order)))
+    let cnf_case = rng.chance(1, 3);
+    // uncompressed SDDs of CNFs blow up quickly: keep those cases small
+    let small = cnf_case && !compress;
+    if small && labels.len() > 5 {
+        labels.truncate(5);
+        vt = vt_random(rng, &labels);
+    }
+    let maxcl = if small { 3 } else { 5 };
+    let first_cnf = gen_cnf(rng, &labels, maxcl);
+    let mut dtree_vt = false;
+    if cnf_case && rng.coin() {
+        // the derived vtree only has the CNF's variables: restrict the labels to them
+        let mut used: Vec<u64> = first_cnf.iter().flatten().map(|l| l.0).collect();
+        used.sort();
+        used.dedup();
+        if let Some(v) = vt_from_dtree(&first_cnf, &used) {
+            vt = v;
+            labels = used;
+            dtree_vt = true;
+        }
+    }
+    if dtree_vt && std::env::var("C03_DUMP").is_ok() {
+        eprintln!("DTREE-VTREE {}", vt_text(&vt));
+    }
     let maxops = if thorough { 40 } else { 26 };
     let mut nops = 4 + (frac * maxops) / 100 + rng.range(0, 4);
     if !compress {
         nops = nops.min(if thorough { 22 } else { 16 });
+    }
+    if small {
+        nops = nops.min(9);
     }
     let mut s = format!("{} {} {} ;", compress as u8, cap, vt_text(&vt));
     let mut len = 0usize;
     let lit = |rng: &mut Rng| format!(" v {} {}", rng.pick(&labels), rng.coin() as u8);
     for _ in 0..rng.range(2, nleaves + 1) {
         s.push_str(&lit(rng));
+        len += 1;
+    }
+    if cnf_case {
+        s.push_str(&cnf_text(&first_cnf));
         len += 1;
     }
     while len < nops {
@@ -219,7 +319,8 @@ pub fn gen(rng: &mut Rng, idx: usize, n: usize, thorough: bool) -> String {
         }
         let k = rng.below(len as u64) as usize;
         let v = *rng.pick(&labels);
-        let op = match rng.below(100) {
+        let op = match rng.below(if cnf_case { 108 } else { 100 }) {
+            100..=107 => cnf_text(&gen_cnf(rng, &labels, maxcl)),
             0..=7 => lit(rng),
             8..=9 => (if rng.coin() { " t" } else { " f" }).to_string(),
             10..=14 => format!(" n {i}"),
@@ -450,6 +551,9 @@ fn check_node(p: SddPtr, w: &mut Walk, infos: &[VInfo], compress: bool, fails: &
 }
 
 pub fn run(case: &str, st: &mut Stats) -> Outcome {
+    if std::env::var("C03_DUMP").is_ok() {
+        eprintln!("CASE {case}");
+    }
     let t = toks(case);
     let compress = t[0] == "1";
     let cap: usize = t[1].parse().unwrap();
@@ -473,6 +577,7 @@ pub fn run(case: &str, st: &mut Stats) -> Outcome {
     let mut pool: Vec<SddPtr> = vec![];
     let mut spec: Vec<TT> = vec![];
     let mut nbin = 0;
+    let mut has_cnf = false;
     let ix = |s: &str| -> usize { s.parse().unwrap() };
     while i < t.len() {
         let (r, sp, adv): (SddPtr, TT, usize) = match t[i] {
@@ -521,6 +626,35 @@ pub fn run(case: &str, st: &mut Stats) -> Outcome {
                 let body = !(masks[v] ^ spec[g]) & spec[a];
                 (builder.compose(pool[a], VarLabel::new(v as u64), pool[g]), tt_cond(body, v, true) | tt_cond(body, v, false), 4)
             }
+            "k" => {
+                let n = ix(t[i + 1]);
+                let mut j = i + 2;
+                let mut f: Vec<Vec<(u64, bool)>> = vec![];
+                for _ in 0..n {
+                    let len = ix(t[j]);
+                    j += 1;
+                    let mut c = vec![];
+                    for _ in 0..len {
+                        let x = ix(t[j]) as u64;
+                        c.push((x / 2, x % 2 == 1));
+                        j += 1;
+                    }
+                    f.push(c);
+                }
+                // oracle: truth table from the raw clauses
+                let mut sp: TT = !0;
+                for c in &f {
+                    let mut ct: TT = 0;
+                    for (v, b) in c {
+                        ct |= if *b { masks[*v as usize] } else { !masks[*v as usize] };
+                    }
+                    sp &= ct;
+                }
+                has_cnf = true;
+                st.bump(if f.is_empty() { "cnf_empty_formula" } else if f.iter().any(|c| c.is_empty()) { "cnf_with_empty_clause" } else { "cnf_regular" });
+                let cnf = cnf_rsdd(&f);
+                (builder.compile_cnf(&cnf), sp, j - i)
+            }
             _ => panic!("bad op"),
         };
         st.bump(&format!("op_{}", t[i]));
@@ -540,9 +674,20 @@ pub fn run(case: &str, st: &mut Stats) -> Outcome {
         }
     }
     out.push("#".to_string());
-    for k in 0..pool.len() {
-        let first = (0..k).find(|&m| pool[m] == pool[k]).unwrap_or(k);
-        out.push(first.to_string());
+    if has_cnf && !compress {
+        // clause order after the code's sort is unspecified: only denotations are determined
+        out.clear();
+        for p in pool.iter() {
+            out.push(format!("{:032x}", w.tt(*p)));
+        }
+        out.push("#".to_string());
+        out.push("tt".to_string());
+        st.bump("truth_table_mode_cases");
+    } else {
+        for k in 0..pool.len() {
+            let first = (0..k).find(|&m| pool[m] == pool[k]).unwrap_or(k);
+            out.push(first.to_string());
+        }
     }
     // per reachable node: partition and vtree confinement (+ C04: compressed, trimmed, canonical)
     let mut seen: HashMap<(u8, usize), SddPtr> = HashMap::new();
@@ -604,5 +749,5 @@ pub fn run(case: &str, st: &mut Stats) -> Outcome {
         st.bump("cases_with_general_nodes");
     }
     fails.truncate(5);
-    Outcome { result: out.join(" "), fails, nontrivial: any_node && nbin > 0 }
+    Outcome { result: out.join(" "), fails, nontrivial: any_node && (nbin > 0 || has_cnf) }
 }
